@@ -246,8 +246,41 @@ def guard_for_insert(h, ins_call, field):
     return None
 
 
+def hit_rejects_other_ids(c, h, ins_call, field):
+    """For `match map.get(k) { Some(x) if G => return Err, _ => {} }; map.insert(k, v)`: G must be exactly `x != v`.
+    Returns None when it is, else a description."""
+    from lib import Canon, pat_top_variants, outcome, src
+    cn = Canon(c, h, 2)
+    val = cn.r(strip(ins_call["args"][1])) if len(ins_call.get("args", [])) > 1 else None
+    for m, _ in walk(h["body"]):
+        if m.get("k") != "match" or m.get("src") != "normal":
+            continue
+        sc = strip(m["scrut"])
+        if not (sc.get("k") == "mcall" and sc["name"] == "get" and strip(sc["recv"]).get("k") == "field" and strip(sc["recv"])["name"] == field):
+            continue
+        for a in m["arms"]:
+            if outcome(a["body"]) not in ("ret-err", "ret"):
+                continue
+            if [v.split("::")[-1] for v in pat_top_variants(a["pat"])] != ["Some"]:
+                continue
+            g = a.get("guard")
+            if g is None:
+                return None  # any hit is rejected
+            g = strip(g)
+            if g.get("k") == "bin" and g["op"] == "Ne":
+                binds = {b["name"] for b, _ in walk(a["pat"]) if b.get("k") == "bind"}
+                l, r = strip(g["l"]), strip(g["r"])
+                for x, y in ((l, r), (r, l)):
+                    if x.get("k") == "path" and x.get("res") == "local" and x["path"] in binds and cn.r(y) == val:
+                        return None
+            return "a registered name held by another id is rejected only under `%s`: otherwise the name is re-pointed to the new id and both entries stay in the space, so two definitions of one name are rendered" % src(a["guard"])[:120]
+    return "no arm rejects a hit of %s under a different id before the insert" % field
+
+
 def run(facts, rep, tier):
     c = facts.impl
+    check_dedup_key_order(facts, rep, "C16.W6")
+    check_entries_convert(facts, rep, "C16.W7")
     allocs = allocator_fns(c)
     rep.floor("C16.W1", "id allocator (constructs TypeId(next_id) and advances it)", len(allocs), 1)
     acc = field_accesses(c, is_typespace, INDEX_FIELDS)
@@ -304,6 +337,11 @@ def run(facts, rep, tier):
                 g = guard_for_insert(h, call, field)
                 rep.ob("C16.W3", "guarded-insert:" + key, g is not None,
                        g or "insert into %s is not guarded by a lookup of the same map (a committed key would be overwritten / a second definition emitted)" % field, sp)
+                if g and g.startswith("preceded by"):
+                    # the insert runs on a hit as well: the only hit that may reach it is the one holding the very id that is inserted
+                    why = hit_rejects_other_ids(c, h, call, field)
+                    rep.ob("C16.W3", "hit-with-other-id-rejected:" + key, why is None,
+                           "every hit under a different id returns an error before the insert" if why is None else why, sp)
             elif field == "id_to_entry":
                 ctx = FnCtx(c, h)
                 r = classify_id(c, ctx, call["args"][0], allocs)
@@ -371,3 +409,108 @@ def run(facts, rep, tier):
                    "returns %s" % out[:80] if not (bad or takes_u64) else "public API exposes internals: (%s) -> %s" % (", ".join(f["inputs"]), out), f.get("sp"))
     unsafe_n = sum(1 for t in c.types if False)
     rep.sample({"rule": "C16.W5", "TypeId": tid})
+
+
+# ---------------------------------------------------------------- W6 the dedup key's order agrees with its equality
+ORD_EXCEPTIONS = {
+    "SchemaWrapper": "hand-written Ord (always Equal) because schemars::Schema has no order; it is a field of named entries only (struct/enum/newtype), which are found by name and never through the structural dedup map",
+    "WrappedValue": "hand-written Ord (always Equal) because serde_json::Value has no order; it occurs only inside named entries (struct/enum/newtype), which are found by name and never through the structural dedup map",
+}
+
+
+def local_adts_in(c, ty):
+    import re as _re
+    out = []
+    for seg in _re.findall(r"[A-Za-z_][A-Za-z0-9_:]*", ty):
+        a = c.adt(seg.split("::")[-1])
+        if a is not None and a not in out:
+            out.append(a)
+    return out
+
+
+def check_dedup_key_order(facts, rep, RULE):
+    """Every ADT inside the key of a structural dedup map (a BTreeMap field of TypeSpace keyed by a local ADT) orders its values by
+    the same data that its equality compares: PartialEq, PartialOrd and Ord are all derived."""
+    import re as _re
+    c = facts.impl
+    ts = c.adt("TypeSpace")
+    keys = []
+    if ts:
+        for v in ts["variants"]:
+            for f in v["fields"]:
+                m = _re.match(r"std::collections::BTreeMap<([^,]+), ", f["ty"])
+                if m:
+                    for a in local_adts_in(c, m.group(1)):
+                        if a["kind"] == "enum" or len(a["variants"][0]["fields"]) > 1:
+                            keys.append((f["name"], a))
+    if not rep.floor(RULE, "structural dedup maps (BTreeMap fields of TypeSpace keyed by an IR type)", len(keys), 1):
+        return
+    impls = {}
+    for i in c.d["impls"]:
+        impls.setdefault(i["self"].split("::")[-1].split("<")[0], {})[i["trait"].split("::")[-1]] = i
+    total = [0]
+    for fname, key in keys:
+        # named payloads are found by name before the structural map is consulted
+        def named(a):
+            return any(f["name"] == "name" and f["ty"].endswith("String") for v in a["variants"] for f in v["fields"])
+        seen, todo, via_unnamed = {}, [(key, True)], set()
+        while todo:
+            a, unn = todo.pop()
+            nm = a["path"].split("::")[-1]
+            if nm in seen and (seen[nm] or not unn):
+                continue
+            seen[nm] = unn or seen.get(nm, False)
+            for v in a["variants"]:
+                for f in v["fields"]:
+                    for b in local_adts_in(c, f["ty"]):
+                        todo.append((b, unn and not named(b)))
+        n = 0
+        for nm, unn in sorted(seen.items()):
+            im = impls.get(nm, {})
+            if "Ord" not in im:
+                continue
+            n += 1
+            all_derived = all(im.get(t, {}).get("derived") for t in ("PartialEq", "PartialOrd", "Ord"))
+            if all_derived:
+                rep.ob(RULE, "ord-agrees-with-eq:%s/%s" % (fname, nm), True, "PartialEq, PartialOrd and Ord of %s are all derived (same fields, same order)" % nm)
+            elif nm in ORD_EXCEPTIONS and not unn:
+                rep.ob(RULE, "ord-agrees-with-eq:%s/%s" % (fname, nm), True, "tabled exception: " + ORD_EXCEPTIONS[nm], nontrivial=False)
+            else:
+                hand = [t for t in ("PartialEq", "PartialOrd", "Ord") if not im.get(t, {}).get("derived")]
+                rep.ob(RULE, "ord-agrees-with-eq:%s/%s" % (fname, nm), False,
+                       "%s of %s %s hand-written while the rest is derived, and %s is part of the key of TypeSpace.%s: two entries that are not equal can compare Equal, so the second one silently gets the first one's type id (e.g. an external generic type with different parameters)" % ("/".join(hand), nm, "is" if len(hand) == 1 else "are", nm, fname), im.get("Ord", {}).get("sp"))
+        total[0] += n
+    rep.floor(RULE, "ordered IR types inside the keys of the dedup maps", total[0], 17)
+
+
+# ---------------------------------------------------------------- W7 every public addition converts what it is given
+def check_entries_convert(facts, rep, RULE):
+    """No public ingestion entry answers from the indexes before converting its schema: the only exits that precede the
+    conversion call are error exits. (A short-cut by name hint or by reference answers with a type that was registered for
+    another schema, and makes the result depend on the order of the calls.)"""
+    from lib import ends, calls_in, top_stmts, outcome, src
+    c = facts.impl
+    entries = []
+    for h in c.user_fns():
+        cs = set(calls_in(h["body"]))
+        if any(ends(x, "TypeSpace::convert_ref_type") or ends(x, "TypeSpace::id_for_schema") for x in cs) and (c.fns[h["fn"]].get("pub") or any(h["fn"] in calls_in(o["body"]) and c.fns[o["fn"]].get("pub") for o in c.user_fns())):
+            if h["fn"].startswith("TypeSpace::") and "convert" not in h["fn"].split("::")[-1] and "id_for" not in h["fn"]:
+                entries.append(h)
+    rep.floor(RULE, "public ingestion entries that convert schemas", len(entries), 2)
+    for h in entries:
+        early = []
+        reached = False
+        for st in top_stmts(h):
+            if any(ends(x, "TypeSpace::convert_ref_type") or ends(x, "TypeSpace::id_for_schema") for x in calls_in(st)):
+                reached = True
+                break
+            for x, xa in walk(st):
+                if x.get("k") == "ret":
+                    e = x.get("e") or {}
+                    t = src(e)
+                    if not (t.startswith("Err(") or "Err(" in t[:12]):
+                        early.append(x)
+        ok = reached and not early
+        rep.ob(RULE, "converts-before-answering:%s" % h["fn"], ok,
+               "the schema is converted before anything is returned (only error exits precede the conversion)" if ok else
+               ("`%s` returns before the schema is converted: the answer is a type registered for some other schema, re-adding a schema can return a different identifier and the set of definitions depends on the order of the calls" % src(early[0])[:80] if early else "the conversion call is not at the top level of the entry"), (early[0] if early else h).get("sp") or c.fns[h["fn"]].get("sp"))
